@@ -45,7 +45,7 @@ class _Diverged(Exception):
 
 
 class Shadow:
-    def __init__(self, name, cfg, label=None, fmap=None, exact=True, tol=0.0, queries=False):
+    def __init__(self, name, cfg, label=None, fmap=None, exact=True, tol=0.0, queries=False, max_frac_bits=None):
         self.name = name
         self.cfg = cfg
         self.label = label or (lambda t: t)
@@ -55,6 +55,10 @@ class Shadow:
         self.queries = queries
         self.src = ReplaySource()
         self.algo = None
+        # a shadow whose map is exact only while coordinates have few fractional bits (large translations) is
+        # retired for the rest of the execution once the reference run proposes a finer point
+        self.max_frac_bits = max_frac_bits
+        self.retired = False
 
 
 class ShadowOracle(Oracle):
@@ -117,6 +121,13 @@ class ShadowOracle(Oracle):
     def after_pull(self, ctx):
         pts = self._rng_points(ctx, self.mark, ctx.src.pos)
         self.mark = ctx.src.pos
+        for sh in self.shadows:
+            if sh.max_frac_bits is not None and not sh.retired and ctx.x is not None:
+                sc = float(2 ** sh.max_frac_bits)
+                if any((float(v) * sc) != math.floor(float(v) * sc) for v in ctx.x):
+                    sh.retired = True
+                    ctx.extra["stats"].bump("shadows_retired_inexact")
+        self.shadows = [sh for sh in self.shadows if not sh.retired]
         for sh in self.shadows:
             sh.src.push(pts)
             lab = sh.label(ctx.t)
